@@ -13,14 +13,18 @@
     combined with the source's own annotation                   updateArg / updateReturn              (C13)
 
   and the type that comes out admits every value of `vs`, for every k, every rewriter configuration of the quantifier and
-  every order / multiplicity in which the store returns the rows.  What the theorem does not cover is the last step, text:
-  that the rendered annotation, evaluated with the names the stub provides, *is* that type (C11's `RenderedDenotes`, evaluated
-  on every generated stub by the C11 and C01 checks, not proved).
+  every order / multiplicity in which the store returns the rows (`pipeline_sound`).  The last step, text — the rendered,
+  module-stripped annotation evaluated with the names the stub provides — is covered for TypedDict-free emitted types
+  (`pipeline_text_sound`, through C11's `rendered_denotes_partial`), which is every emitted type at the default size limit 0
+  (`default_pipeline_text_sound`); for types with generated TypedDict classes it is evaluated on every generated stub by
+  the C11 and C01 checks, not proved.
 -/
 import MTVerif.Props.C07
 import MTVerif.Props.C08
 import MTVerif.Props.C13
 import MTVerif.Lemmas.Normal
+import MTVerif.Lemmas.RewriteNoTD
+import MTVerif.Props.C11
 namespace MT.C01
 open MT MT.Anno
 
@@ -106,6 +110,57 @@ theorem pipeline_sound (h : Hier)
     ∀ v ∈ vs, conforms h.sub true (positionType h cfg k (decodeAll env rows)) v = true :=
   position_sound h htrans hbase hrefl cfg k vs hwv _
     (decodeAll_mem env nm _ (fun t ht => ⟨hstor t ht, getTypes_normal k vs t ht⟩) rows hrows)
+
+/-! ### … down to the text of the stub -/
+
+open MT.Render in
+/-- C01 with the last step included, for a position whose emitted type is TypedDict-free: the annotation *text* — rendered,
+    module prefixes stripped — evaluated in any stub namespace in which each of its names denotes what was rendered
+    (`namesOk`, the hypothesis of C11's `rendered_denotes_partial`) is a type that admits every observed value. -/
+theorem pipeline_text_sound (h : Hier)
+    (htrans : ∀ a b c, h.sub a b = true → h.sub b c = true → h.sub a c = true)
+    (hbase : ∀ c b, h.bases c = [b] → h.sub c b = true) (hrefl : ∀ c, h.sub c c = true)
+    (env : Env) (nm : Names) (cfg : RwCfg) (k : Nat) (vs : List Val) (hwv : wfL vs = true)
+    (hstor : ∀ t ∈ getTypes k vs, t.storable env nm = true)
+    (rows : List Json) (hrows : ∀ j, j ∈ rows ↔ j ∈ (getTypes k vs).map (encodeTy nm))
+    (ns : NS) (mods : List (List String))
+    (hnoTD : (positionType h cfg k (decodeAll env rows)).hasTD = false)
+    (hnames : namesOk ns nm mods (positionType h cfg k (decodeAll env rows)) = true) :
+    ∃ t', evalE ns (stripE mods (renderE nm (positionType h cfg k (decodeAll env rows)))) = some t' ∧
+      ∀ v ∈ vs, conforms h.sub true t' v = true := by
+  obtain ⟨t', he, hs⟩ := MT.C11.rendered_denotes_partial h.sub true ns nm mods _ hnoTD hnames
+  refine ⟨t', he, fun v hv => ?_⟩
+  rw [hs v]
+  exact pipeline_sound h htrans hbase hrefl env nm cfg k vs hwv hstor rows hrows v hv
+
+/-- at the default `max_typed_dict_size` (0) the emitted type is always TypedDict-free, whatever the rewriter configuration -/
+theorem default_limit_noTD (h : Hier) (env : Env) (nm : Names) (cfg : RwCfg) (vs : List Val)
+    (hstor : ∀ t ∈ getTypes 0 vs, t.storable env nm = true)
+    (rows : List Json) (hrows : ∀ j, j ∈ rows ↔ j ∈ (getTypes 0 vs).map (encodeTy nm)) :
+    (positionType h cfg 0 (decodeAll env rows)).hasTD = false := by
+  unfold positionType
+  apply rewriteChain_noTD
+  apply tdOk_zero
+  apply shrink_tdOk
+  intro t ht
+  have := (decodeAll_mem env nm _ (fun t ht => ⟨hstor t ht, getTypes_normal 0 vs t ht⟩) rows hrows t).mp ht
+  exact getTypes_tdOk 0 vs t this
+
+/-- C01 in the default configuration, run → store → stub text: for every collection of well-formed observed values, every
+    rewriter configuration and every order / multiplicity of the stored rows, the annotation text of the position, read in a
+    namespace in which its names denote what was rendered, admits every observed value. -/
+theorem default_pipeline_text_sound (h : Hier)
+    (htrans : ∀ a b c, h.sub a b = true → h.sub b c = true → h.sub a c = true)
+    (hbase : ∀ c b, h.bases c = [b] → h.sub c b = true) (hrefl : ∀ c, h.sub c c = true)
+    (env : Env) (nm : Names) (cfg : RwCfg) (vs : List Val) (hwv : wfL vs = true)
+    (hstor : ∀ t ∈ getTypes 0 vs, t.storable env nm = true)
+    (rows : List Json) (hrows : ∀ j, j ∈ rows ↔ j ∈ (getTypes 0 vs).map (encodeTy nm))
+    (ns : MT.Render.NS) (mods : List (List String))
+    (hnames : MT.Render.namesOk ns nm mods (positionType h cfg 0 (decodeAll env rows)) = true) :
+    ∃ t', MT.Render.evalE ns (MT.Render.stripE mods (MT.Render.renderE nm (positionType h cfg 0 (decodeAll env rows)))) = some t' ∧
+      ∀ v ∈ vs, conforms h.sub true t' v = true :=
+  pipeline_text_sound h htrans hbase hrefl env nm cfg 0 vs hwv hstor rows hrows ns mods
+    (default_limit_noTD h env nm cfg vs hstor rows hrows) hnames
 
 /-! ### what is emitted at the position (strategy flags) -/
 
